@@ -56,5 +56,33 @@ for f in (ROOT / "lean").rglob("*.lean"):
         l2 = l.split("--")[0]
         if tok.search(l2):
             bad.append(f"{f.relative_to(ROOT)}: forbidden token: {l.strip()[:100]}")
+# interface discipline (DESIGN §2.3): a definition translated from a source fragment (tie T1) is unfolded ONLY in
+# lean/SparseV/Lemmas/Gen/*.lean, whose proofs do not depend on its shape; everything else goes through those lemmas
+sys.path.insert(0, str(ROOT / "tools"))
+from py2lean_targets import FILES as _FILES  # noqa: E402
+_frag = sorted({t["name"] for spec in _FILES.values() for t in spec["targets"]})
+_pat = re.compile(r"\bGen\.(%s)\b(?![_A-Za-z0-9'])" % "|".join(_frag))
+for f in (ROOT / "lean" / "SparseV").rglob("*.lean"):
+    rel = f.relative_to(ROOT / "lean" / "SparseV")
+    if rel.parts[0] in ("Generated", "Generated.ref") or rel.parts[:2] == ("Lemmas", "Gen"):
+        continue
+    txt = re.sub(r"/-.*?-/", "", f.read_text(), flags=re.S)
+    txt = "\n".join(l.split("--")[0] for l in txt.splitlines())
+    hits = [m.group(0) for m in re.finditer(r"\b(?:unfold|delta)\b[^\n]*", txt) if _pat.search(m.group(0))]
+    for m in re.finditer(r"\[([^\[\]]*)\]", txt, re.S):  # simp / rw lists: an ITEM that is the bare definition name
+        depth, item, items = 0, "", []
+        for ch in m.group(1):
+            depth += ch in "(⟨{"
+            depth -= ch in ")⟩}"
+            if ch == "," and depth == 0:
+                items.append(item)
+                item = ""
+            else:
+                item += ch
+        items.append(item)
+        if any(_pat.fullmatch(it.strip().lstrip("←↓ ").strip()) for it in items):
+            hits.append(m.group(0))
+    for h in hits:
+        bad.append(f"lean/SparseV/{rel}: unfolds a generated fragment outside Lemmas/Gen: {' '.join(h.split())[:120]}")
 print("\n".join(bad) if bad else "selfcheck OK")
 sys.exit(1 if bad else 0)
